@@ -75,7 +75,18 @@ pub fn run(tier: Tier, seed: u64, replay: Option<String>) -> i32 {
         "hoisted names follow Parent+TitleCase(component) / Anonymous+Parent / Parent+ExtGroup+First (observed rule)".into(),
         "which member of a recursive cycle is boxed is not asserted; only that every cycle is broken".into(),
     ];
-    let e = |m: &ModuleSet| eval(m, "C02");
+    // the TypeScript bindings have the same obligations (C18's clauses: members in order, `?`
+    // exactly on OPTIONAL / DEFAULT members, arrays, CHOICE unions, object shapes)
+    let e = |m: &ModuleSet| match eval(m, "C02") {
+        Verdict::Pass { nontrivial, mut classes } => {
+            if let Some((key, what)) = crate::props::c18::ts_clause_failure(m, &["optional", "order", "object", "array", "choice", "members"]) {
+                return Verdict::Fail { key: format!("ts:{key}"), finding: None, what: format!("TypeScript backend: {what}"), observed: serde_json::json!(null), nontrivial: true };
+            }
+            classes.push("backend:typescript (shape clauses)".into());
+            Verdict::Pass { nontrivial, classes }
+        }
+        other => other,
+    };
     let run = GenericRun {
         gcfg: gen_cfg(),
         n: tier.pick(20000, 300000),
